@@ -345,9 +345,9 @@ impl<Db: Database> InternalStorage<Db> {
                         time_updated: next_epoch,
                         value: Box::new(source),
                     };
-                } else {
-                    source_node.time_updated = self.current_epoch;
                 }
+                // An equal value leaves the node (and its time_updated) untouched, so that
+                // memoized functions that read it are not re-executed.
             }
             Entry::Vacant(vacant_entry) => {
                 let index = self.insert_source_node(SourceNode {
